@@ -5,6 +5,7 @@
    Part 4: the theorems of the property.
    Part 5: the model meets the boolean oracle. *)
 From NV Require Import Base Regex Generated C20_Semver C20_Model.
+From NV Require C20_SemverProofs.
 Open Scope string_scope.
 
 (* ================= Part 1: basics ================= *)
@@ -1143,3 +1144,22 @@ Example selfdir_refuted :
   parse_dir es = LOk (F "notation-foo" 484 1) "foo" [F "notation-foo" 484 1] /\
   parse_dir_selfdir "pkg" es = LOk (F "notation-foo2" 493 3) "foo2" [F "notation-foo" 420 1].
 Proof. split; vm_compute; reflexivity. Qed.
+
+(* ================= closing: the hypotheses of the sections are the theorems of C20_SemverProofs ================= *)
+Module SP := C20_SemverProofs.
+
+Definition c20_cpv := SP.compare_plugin_version_spec.
+
+Definition c20_sv_higher_iff := sv_higher_iff SP.valid_decodes SP.prec_cmp_gt_iff.
+Definition c20_install_result := install_result c20_cpv.
+Definition c20_install_success_iff := install_success_iff c20_cpv.
+Definition c20_replace_rule :=
+  replace_rule c20_cpv SP.valid_decodes SP.prec_cmp_gt_iff SP.prec_cmp_lt_iff SP.prec_cmp_eq_iff.
+Definition c20_replace_broken := replace_broken c20_cpv.
+Definition c20_install_fresh := install_fresh c20_cpv.
+Definition c20_refused_unusable := refused_unusable c20_cpv.
+Definition c20_installed := installed c20_cpv.
+Definition c20_source_independent_gen := source_independent_gen c20_cpv.
+Definition c20_source_independent_exec := source_independent_exec c20_cpv.
+Definition c20_source_independent_nonexec := source_independent_nonexec c20_cpv.
+Definition c20_model_spec_ok := model_spec_ok c20_cpv.
